@@ -213,6 +213,10 @@ def skel_lib(flavour='asan', defines=()):
     flags = cfl + ['-w', '-I' + os.path.join(REPO, 'skeletons')]
     jobs, objs = [], []
     for s in skeleton_sources():
+        bn = os.path.basename(s)
+        # with -no-gen-OER asn1c does not copy the CODEC-OER files (skeletons/file-dependencies); mirror that
+        if 'ASN_DISABLE_OER_SUPPORT' in defines and (bn.startswith('oer_') or bn.endswith('_oer.c')):
+            continue
         o = os.path.join(tmp, os.path.basename(s)[:-2] + '.o')
         jobs.append((s, o, flags))
         objs.append(o)
